@@ -104,6 +104,8 @@ func genOps(t *rapid.T) []op {
 			// refuses them at the limit, nothing may have changed
 			{"LSET", k, "0", v}, {"HINCRBY", k, "n", "1"}, {"HINCRBYFLOAT", k, "n", "1.5"}, {"HDEL", k, "f"}, {"LTRIM", k, "0", "0"}, {"LREM", k, "0", "e"},
 			{"ZINCRBY", k, "1", v}, {"SETRANGE", k, "1", v}, {"LPUSHX", k, v}, {"HSETNX", k, "g", v},
+			// two-key writers: refused at the limit they must leave both keys as they were
+			{"LMOVE", k, rapid.SampledFrom(keys).Draw(t, "k5"), "LEFT", "RIGHT"}, {"SMOVE", k, rapid.SampledFrom(keys).Draw(t, "k6"), "m"}, {"RENAME", k, rapid.SampledFrom(keys).Draw(t, "k7")},
 		}
 		if rapid.IntRange(0, 40).Draw(t, "flush") == 0 {
 			ops = append(ops, op{DB: db, Cmd: []string{"FLUSHDB"}})
